@@ -589,28 +589,35 @@ pub fn examples(th: bool) -> Vec<Example> {
         // freed LATER to be the only one which can still take an aircraft (two runways freed at the same time by aircraft of different
         // classes, class dependent separations) -- seeded change C16b; the quick tier runs it over the reduced alphabets {1,2} / {0,1}.
         let full_t = vec![1i64, 2, 4]; let full_o = vec![0i64, 1, 3];
-        let scopes: Vec<(usize, usize, usize, Vec<i64>, Vec<i64>)> = if th {
-            vec![(1, 1, 1, full_t.clone(), full_o.clone()), (2, 1, 1, full_t.clone(), full_o.clone()), (2, 2, 1, full_t.clone(), full_o.clone()), (2, 2, 2, full_t.clone(), full_o.clone()), (3, 1, 1, full_t.clone(), full_o.clone()), (3, 1, 2, full_t.clone(), full_o.clone()), (3, 2, 1, full_t.clone(), full_o.clone()), (3, 2, 2, full_t.clone(), full_o.clone()), (4, 2, 2, vec![1, 2], vec![0, 1])]
+        let s12 = vec![1i64, 2];
+        // last component: separation alphabet.  Over {1,4} the matrices are ASYMMETRIC with contrast (the shipped files are all
+        // symmetric): with four aircraft on one runway and wide windows a merged runway state uses the least separation TOWARDS a
+        // class -- row and column minima differ (seeded change C16sr4; thorough tier only: 6.1e4 instances).  A matrix which violates the triangle inequality is closed
+        // under shortest paths (the model only separates consecutive aircraft: every shipped file satisfies it).
+        let scopes: Vec<(usize, usize, usize, Vec<i64>, Vec<i64>, Vec<i64>)> = if th {
+            vec![(1, 1, 1, full_t.clone(), full_o.clone(), s12.clone()), (2, 1, 1, full_t.clone(), full_o.clone(), s12.clone()), (2, 2, 1, full_t.clone(), full_o.clone(), s12.clone()), (2, 2, 2, full_t.clone(), full_o.clone(), s12.clone()), (3, 1, 1, full_t.clone(), full_o.clone(), s12.clone()), (3, 1, 2, full_t.clone(), full_o.clone(), s12.clone()), (3, 2, 1, full_t.clone(), full_o.clone(), s12.clone()), (3, 2, 2, full_t.clone(), full_o.clone(), s12.clone()), (4, 2, 2, vec![1, 2], vec![0, 1], s12.clone()),
+                 (4, 2, 1, vec![1, 2, 4], vec![3, 9], vec![1, 4])]
         } else {
-            vec![(1, 1, 1, full_t.clone(), full_o.clone()), (2, 1, 1, full_t.clone(), full_o.clone()), (2, 2, 2, full_t.clone(), full_o.clone()), (3, 1, 2, full_t.clone(), full_o.clone()), (3, 2, 2, vec![1, 2], vec![0, 1])]
+            vec![(1, 1, 1, full_t.clone(), full_o.clone(), s12.clone()), (2, 1, 1, full_t.clone(), full_o.clone(), s12.clone()), (2, 2, 2, full_t.clone(), full_o.clone(), s12.clone()), (3, 1, 2, full_t.clone(), full_o.clone(), s12.clone()), (3, 2, 2, vec![1, 2], vec![0, 1], s12.clone())]
         };
         let msets = |na: usize, g: &[i64]| -> Vec<Vec<i64>> { let b = g.len(); let mut out = vec![]; let mut cur = vec![0usize; na]; loop { if cur.windows(2).all(|w| w[0] <= w[1]) { out.push(cur.iter().map(|i| g[*i]).collect()); } let mut p = 0; loop { if p == na { return out; } cur[p] += 1; if cur[p] < b { break; } cur[p] = 0; p += 1; } } };
-        let info: Vec<(usize, usize, usize, Vec<Vec<i64>>, Vec<i64>)> = scopes.iter().map(|(a, c, r, g, o)| (*a, *c, *r, msets(*a, g), o.clone())).collect();
-        let sizes: Vec<u64> = info.iter().map(|(na, ncl, _, ms, o)| (*ncl as u64).pow(*na as u32) * ms.len() as u64 * (o.len() as u64).pow(*na as u32) * (1u64 << (ncl * ncl))).collect();
+        let info: Vec<(usize, usize, usize, Vec<Vec<i64>>, Vec<i64>, Vec<i64>)> = scopes.iter().map(|(a, c, r, g, o, sa)| (*a, *c, *r, msets(*a, g), o.clone(), sa.clone())).collect();
+        let sizes: Vec<u64> = info.iter().map(|(na, ncl, _, ms, o, sa)| (*ncl as u64).pow(*na as u32) * ms.len() as u64 * (o.len() as u64).pow(*na as u32) * (sa.len() as u64).pow((ncl * ncl) as u32)).collect();
         let count = sizes.iter().sum();
-        ex.push(Example { name: "alp", scope: format!("(aircraft, classes, runways, target alphabet, latest-offset alphabet) in {:?}: all class assignments, sorted targets, latest = target + offset (ordered inside a class), separations in {{1,2}}", scopes), count, file_flag: None, tsptw_output: false, extra: vec![],
+        ex.push(Example { name: "alp", scope: format!("(aircraft, classes, runways, target alphabet, latest-offset alphabet, separation alphabet) in {:?}: all class assignments, sorted targets, latest = target + offset (ordered inside a class), all separation matrices (closed under the triangle inequality)", scopes), count, file_flag: None, tsptw_output: false, extra: vec![],
             arg_sets: argsets(&w4, tt, "-w", "-t"),
             gen: Box::new(move |mut idx| {
                 let mut k = 0;
                 while idx >= sizes[k] { idx -= sizes[k]; k += 1; }
-                let (na, ncl, nr, ms, offs) = &info[k];
+                let (na, ncl, nr, ms, offs, sa) = &info[k];
                 let (na, ncl, nr) = (*na, *ncl, *nr);
                 let classes: Vec<usize> = (0..na).map(|_| digit(&mut idx, ncl as u64) as usize).collect();
                 let targets = ms[digit(&mut idx, ms.len() as u64) as usize].clone();
                 let mut latest: Vec<i64> = (0..na).map(|a| targets[a] + offs[digit(&mut idx, offs.len() as u64) as usize]).collect();
                 // keep the latest times ordered like the targets inside each class (the model lands a class in index order)
                 for c in 0..ncl { let ids: Vec<usize> = (0..na).filter(|a| classes[*a] == c).collect(); for w in 1..ids.len() { if latest[ids[w]] < latest[ids[w - 1]] { latest[ids[w]] = latest[ids[w - 1]]; } } }
-                let sep: Vec<Vec<i64>> = (0..ncl).map(|_| (0..ncl).map(|_| digit(&mut idx, 2) as i64 + 1).collect()).collect();
+                let mut sep: Vec<Vec<i64>> = (0..ncl).map(|_| (0..ncl).map(|_| sa[digit(&mut idx, sa.len() as u64) as usize]).collect()).collect();
+                for kk in 0..ncl { for a in 0..ncl { for b in 0..ncl { if sep[a][kk] + sep[kk][b] < sep[a][b] { sep[a][b] = sep[a][kk] + sep[kk][b]; } } } }
                 let mut best: Option<i64> = None;
                 for p in perms(na) {
                     let fifo = (0..ncl).all(|c| { let ids: Vec<usize> = p.iter().copied().filter(|a| classes[*a] == c).collect(); ids.windows(2).all(|w| w[0] < w[1]) });
